@@ -146,9 +146,16 @@ class World:
             elif k == 'q_trav':
                 ret = bool(query.is_node_traversable_by_attacker(self.nodes[op[2]], self.atts[op[1]]))
             elif k == 'q_surface':
-                ret = [self.nh(n) for n in query.get_attack_surface(self.atts[op[1]])]
+                live = query.get_attack_surface(self.atts[op[1]])
+                self.__dict__.setdefault('live_surface', {})[op[1]] = live
+                ret = [self.nh(n) for n in live]
             elif k == 'q_update':
                 cur = [self.nodes[i] for i in op[2]]
+                # a user hands the list the query returned back to the incremental update: use that very object when
+                # it still holds the surface the history names (an aliased result would let the update write into the graph)
+                live = self.__dict__.get('live_surface', {}).get(op[1])
+                if live is not None and len(live) == len(cur) and all(x is y for x, y in zip(live, cur)):
+                    cur = live
                 ret = [self.nh(n) for n in query.update_attack_surface_add_nodes(
                     self.atts[op[1]], cur, [self.nodes[i] for i in op[3]])]
             elif k == 'q_defsurface':
@@ -295,7 +302,9 @@ def rand_spec(rng: random.Random, i: int, with_asset=True, fresh=False):
     tags = rng.choice([[], [], ['suppress'], ['x', 'y'], ['suppress', 'z']])
     extras = rng.choice([{}, {}, {'k': 1}, {'pos': {'x': 1, 'y': -2}}])
     asset = f'a{rng.randrange(3)}' if (with_asset and rng.random() < 0.8) else None
-    return {'type': t, 'name': f's{i}', 'ttc': ttc, 'asset': asset, 'def': d, 'exist': e,
+    # step names repeat across assets (and across nodes without an asset, whose full name starts with their id)
+    nm = f's{rng.randrange(i)}' if (i > 0 and rng.random() < 0.25) else f's{i}'
+    return {'type': t, 'name': nm, 'ttc': ttc, 'asset': asset, 'def': d, 'exist': e,
             'viable': True if fresh else rng.random() < 0.8,
             'necessary': True if fresh else rng.random() < 0.8,
             'mitre': rng.choice([None, None, 'T1000']), 'tags': tags, 'extras': extras}
@@ -458,7 +467,11 @@ class Gen:
         elif k == 'q_update' and ats and ing:
             a = rng.choice(ats)
             from maltoolbox.attackgraph import query
-            cur = [self.w.nh(n) for n in query.get_attack_surface(self.w.atts[a])]
+            self.do(('q_surface', a))
+            live = self.w.__dict__.get('live_surface', {}).get(a)
+            if live is None:
+                return
+            cur = [self.w.nh(n) for n in live]
             new = rng.sample(ing, min(len(ing), rng.randrange(1, 3)))
             for o in new:
                 self.do(('compromise', a, o, False))
